@@ -58,7 +58,7 @@
  * histories), C17_LIVES3_DEPTH (kill in the restart), C17_DOUBLE_DEPTH (kill in life 1 and in the restart); for histories
  * with a mid-history restart (depth = operations, markers not counted): C17_RST_FULL_DEPTH, C17_RST_FREE_DEPTH,
  * C17_RST_LIVES3_DEPTH, C17_RST_KILL_DEPTH (kill+restart markers), C17_RST2_DEPTH (two markers; >= 3 to have any),
- * C17_RST2_KILL (two markers may be kill+restart).
+ * C17_RST2_KILL (two markers may be kill+restart); C17_NO_MIXED / C17_ONLY_MIXED (without / only the mixed-transport family).
  */
 #ifndef _GNU_SOURCE
 #define _GNU_SOURCE
@@ -946,8 +946,8 @@ tcp_drain(void) {
           if (tkl == 3 && !memcmp(tok, tk, 3) && w_find(&m, 6))
             notif = 1;
         }
-        if (notif && cur_during < 0 && last_code[P_T] != -1)
-          R->tcp_notifs++; /* not the answer to the request that is being waited for */
+        if (notif && last_code[P_T] != -1)
+          R->tcp_notifs++; /* not the answer to a request that is being waited for */
         else {
           last_code[P_T] = code;
           last_has_obs[P_T] = w_find(&m, 6) != NULL;
@@ -966,11 +966,9 @@ static int
 tcp_connect(void) {
   if (tcp_st && !tcp_gone)
     return 1;
-  coap_address_t from = peer_addr[P_T];
-  from.addr.sin.sin_port = htons((uint16_t)(ns_addr_port(&peer_addr[P_T]) + 16 * R->seg + (cur_op >= 100 ? 8 : 0))); /* a new connection has a new source port */
   tcp_rxlen = 0;
   tcp_csm_seen = tcp_gone = 0;
-  tcp_st = ns_stream_raw_connect(&from, &srv_addr);
+  tcp_st = ns_stream_raw_connect(&peer_addr[P_T], &srv_addr);
   if (!tcp_st) {
     rep_fail("harness:tcp-connect", "TCP connect to the server failed");
     return 0;
@@ -1332,6 +1330,10 @@ life_restart(int die_at) {
 /* vx child side                                                                                    */
 static struct scn *scns;
 static int nscn, capscn;
+/* counters of the whole run (shared anonymous mapping made before the workers are forked) */
+static struct shared {
+  long mixed_execs, mixed_kill_execs, mixed_restart_kill_execs, tcp_probes_ok;
+} *G;
 static struct report *
 rep_alloc(void) {
   struct report *r = mmap(NULL, sizeof *r, PROT_READ | PROT_WRITE, MAP_SHARED | MAP_ANONYMOUS, -1, 0);
@@ -1618,6 +1620,10 @@ m_apply(struct model *m, const struct op *o, int idx) {
   case OP_CAN:
     m->obs[o->p][o->r] = 0;
     break;
+  case OP_RST: /* a TCP connection does not outlive the server process, and its observations are not persisted */
+    for (int r = 0; r < NRES; r++)
+      m->obs[P_T][r] = 0;
+    break;
   default:
     break;
   }
@@ -1753,7 +1759,6 @@ sent_summary(const struct report *rep, char *out, size_t n) {
 static void
 judge_restart(const struct scn *scn, const struct report *r1, const struct report *r2, const struct pfile final[NFILES],
               const struct model *pre, const struct model *post, int crashed_in, const char *ctx_sig, const char *who) {
-  (void)scn;
   char sig[200], why[80];
   int lost_res[NRES] = {0};
   if (!r2->exists[R_S1])
@@ -1775,6 +1780,9 @@ judge_restart(const struct scn *scn, const struct report *r1, const struct repor
       lost_res[d] = 1;
     } else if (must && r2->get_code[d] != 69) {
       vx_fail("resource-unreachable:after-restart", "%s: %s exists after restart but GET answers code %d", who, res_names[d], r2->get_code[d]);
+    } else if (must && scn->mixed && r2->get_code_tcp[d] != 69) {
+      vx_fail("resource-unreachable:after-restart:over-tcp", "%s: %s exists after restart and answers a GET over UDP, but a GET over a new TCP connection is answered with code %d",
+              who, res_names[d], r2->get_code_tcp[d]);
     } else if (!may && r2->exists[d]) {
       if (pfile_has(F_DYN, &final[F_DYN], 0, d)) {
         explain_stale(r1, F_DYN, 0, d, why, sizeof why);
@@ -1784,6 +1792,11 @@ judge_restart(const struct scn *scn, const struct report *r1, const struct repor
       vx_fail(sig, "%s: dynamic resource %s was deleted (acknowledged) but exists again after restart", who, res_names[d]);
     }
   }
+  /* the TCP observer: its connection died with the process and is not coming back, nothing of it may be restored */
+  for (int r = 0; r < NRES; r++)
+    if (r2->sub[P_T][r])
+      vx_fail("stale-observation:tcp-observer-restored", "%s: %s has a subscriber entry for the TCP peer after restart (its connection ended with the old process)", who,
+              res_names[r]);
   for (int p = P_1; p <= P_2; p++)
     for (int r = 0; r < NRES; r++) {
       int must = pre->obs[p][r] && post->obs[p][r], may = pre->obs[p][r] || post->obs[p][r];
@@ -1929,6 +1942,45 @@ run(void *arg) {
   for (int f = 0; f < NFILES; f++)
     pfile_str(f, &F[f], fstr[f], sizeof fstr[0]);
   vx_observe("files before restart: dyn=%s obs=%s cnt=%s", fstr[F_DYN], fstr[F_OBS], fstr[F_CNT]);
+  if (scn->mixed && G) {
+    __atomic_fetch_add(&G->mixed_execs, 1, __ATOMIC_RELAXED);
+    if (die_at)
+      __atomic_fetch_add(&G->mixed_kill_execs, 1, __ATOMIC_RELAXED);
+  }
+  /* every record carries the transport of its own packet: the loader reads the packet with the framing the label says */
+  for (int f = 0; f < NFILES; f++) {
+    if (f == F_CNT)
+      continue;
+    for (int i = 0; i < F[f].n; i++) {
+      if (!F[f].rec[i].mislabelled)
+        continue;
+      const char *by = "unknown";
+      int at = -1;
+      for (int j = 0; j < r1->nupd && at < 0; j++) { /* the first call-out that left the record like this */
+        const struct upd *u = &r1->upd[j];
+        if (!u->done) {
+          at = j;
+          break;
+        }
+        struct pfile post;
+        parse_file(f, r1->blob + u->post.off[f], u->post.len[f], &post);
+        for (int k = 0; k < post.n; k++)
+          if (post.rec[k].mislabelled && !strcmp(post.rec[k].name, F[f].rec[i].name))
+            at = j;
+      }
+      char sig[200], opn[40] = "-";
+      if (at >= 0) {
+        by = upd_names[r1->upd[at].type];
+        if (r1->upd[at].op >= 0 && r1->upd[at].op < scn->nops)
+          op_str(&scn->ops[r1->upd[at].op], opn, sizeof opn);
+      }
+      snprintf(sig, sizeof sig, "mislabelled-proto:%s:%s", file_names[f], by);
+      vx_fail(sig, "history %s: %s file is %s: record %d (%s) is labelled %s but its stored packet has the framing of the other transport family (the loader will not read it); "
+                   "first like that after call-out %s of operation #%d %s",
+              scn->name, file_names[f], fstr[f], i + 1, F[f].rec[i].name, F[f].rec[i].stream ? "TCP" : "UDP", by, at >= 0 ? r1->upd[at].op : -1, opn);
+      break;
+    }
+  }
   const char *where = "no-kill";
   const char *ckind = die_at && die_at <= N ? kind_names[dry->kinds[die_at]] : "end";
   if (crashed_in >= 0) {
@@ -1999,6 +2051,14 @@ run(void *arg) {
   sent_summary(r2, ss, sizeof ss);
   vx_observe("after restart: exists s1=%d d1=%d d2=%d d3=%d; notifications:%s", r2->exists[0], r2->exists[1], r2->exists[2], r2->exists[3],
              ss[0] ? ss : " none");
+  if (scn->mixed) {
+    vx_observe("peer t in the history: %d connection(s), %d notification(s) read; after restart a new TCP connection GETs: s1=%d d1=%d d2=%d d3=%d", r1->tcp_conns,
+               r1->tcp_notifs, r2->get_code_tcp[0], r2->get_code_tcp[1], r2->get_code_tcp[2], r2->get_code_tcp[3]);
+    if (G)
+      for (int d = R_D1; d < NRES; d++)
+        if (r2->exists[d] && r2->get_code_tcp[d] == 69)
+          __atomic_fetch_add(&G->tcp_probes_ok, 1, __ATOMIC_RELAXED);
+  }
   int before = vx_failed();
   judge_restart(scn, r1, r2, F, &pre, &post, crashed_in, ctx_sig, "restart");
 
@@ -2008,6 +2068,8 @@ run(void *arg) {
     int k2 = choose_crash(M2);
     if (k2) {
       vx_nontrivial();
+      if (scn->mixed && G)
+        __atomic_fetch_add(&G->mixed_restart_kill_execs, 1, __ATOMIC_RELAXED);
       r2b = rep_alloc();
       r3 = rep_alloc();
       set_dir(dir2);
@@ -2203,6 +2265,157 @@ generate(int f, int depth, int (*policy)(const struct op *, int, int *, int *)) 
   gen_rec(&g, ops, 0);
 }
 
+/* ================================================================================================ */
+/* the mixed-transport family: an explicit list (a transport flag per operation breaks the d1<->d2 renaming the generator
+ * above divides by, so nothing of this goes through it; every name order is written out instead)   */
+#define PUT(r, x) ((struct op){OP_PUT, 0, (uint8_t)(r), 0, (uint8_t)(x)})
+#define DEL(r, x) ((struct op){OP_DEL, 0, (uint8_t)(r), 0, (uint8_t)(x)})
+#define REG(p, r) ((struct op){OP_REG, (uint8_t)(p), (uint8_t)(r), 0, (p) == P_T})
+#define CAN(p, r) ((struct op){OP_CAN, (uint8_t)(p), (uint8_t)(r), 0, (p) == P_T})
+#define CHG(r, c) ((struct op){OP_CHG, 0, (uint8_t)(r), (uint16_t)(c), 0})
+#define RST(k) ((struct op){OP_RST, 0, 0, (uint16_t)(k), 0})
+static int n_mixed;
+static void
+emit_mixed(const struct op *ops, int n, int f, int bound, int lives) {
+  int any = 0;
+  for (int i = 0; i < n; i++)
+    any |= ops[i].x;
+  if (!any || n > MAXOPS) {
+    fprintf(stderr, "mixed-transport family: bad history\n");
+    exit(2);
+  }
+  emit(ops, n, f, bound, lives);
+  for (int i = 0; i < nscn - 1; i++)
+    if (!strcmp(scns[i].name, scns[nscn - 1].name)) { /* listed twice */
+      nscn--;
+      return;
+    }
+  scns[nscn - 1].mixed = 1;
+  n_mixed++;
+}
+static void
+mixed_family(int thorough) {
+  static const int freqs[3] = {1, 2, 10};
+  struct op b[MAXOPS], h[MAXOPS];
+  /* --- creation over both transports, every order --- */
+  struct {
+    int n;
+    struct op ops[3];
+  } base[64];
+  int nbase = 0;
+  static const int two[2][2] = {{R_D1, R_D2}, {R_D2, R_D1}};
+  for (int o = 0; o < 2; o++)
+    for (int x = 1; x < 4; x++) { /* bit i = operation i over TCP: TU, UT, TT */
+      base[nbase].n = 2;
+      for (int i = 0; i < 2; i++)
+        base[nbase].ops[i] = PUT(two[o][i], x >> i & 1);
+      nbase++;
+    }
+  int n2 = nbase;
+  static const int perm[6][3] = {{R_D1, R_D2, R_D3}, {R_D1, R_D3, R_D2}, {R_D2, R_D1, R_D3}, {R_D2, R_D3, R_D1}, {R_D3, R_D1, R_D2}, {R_D3, R_D2, R_D1}};
+  for (int o = 0; o < 6; o++) { /* all orders of {d1 over TCP, d2 over UDP, d3 over UDP} */
+    base[nbase].n = 3;
+    for (int i = 0; i < 3; i++)
+      base[nbase].ops[i] = PUT(perm[o][i], perm[o][i] == R_D1);
+    nbase++;
+  }
+  int n3perm = nbase;
+  for (int x = 2; x < 8; x++) { /* d1, d2, d3 in this order, every other assignment of transports that uses TCP */
+    base[nbase].n = 3;
+    for (int i = 0; i < 3; i++)
+      base[nbase].ops[i] = PUT(R_D1 + i, x >> i & 1);
+    nbase++;
+  }
+  for (int k = 0; k < nbase; k++) {
+    int n = base[k].n, rt = -1, ru = -1, first = base[k].ops[0].r;
+    if (!thorough && k >= n3perm)
+      break;
+    memcpy(b, base[k].ops, sizeof b[0] * (size_t)n);
+    for (int i = 0; i < n; i++) {
+      if (b[i].x && rt < 0)
+        rt = b[i].r;
+      if (!b[i].x && ru < 0)
+        ru = b[i].r;
+    }
+    if (ru < 0)
+      ru = R_S1;
+    /* the creations, then stop or kill (kill points of the last creation, kill in the restart) and restart */
+    emit_mixed(b, n, 1, thorough && k < n2 ? 2 : 1, 3);
+    /* ... then the first created resource is deleted, over either transport */
+    for (int x = 0; x < 2; x++) {
+      memcpy(h, b, sizeof b[0] * (size_t)n);
+      h[n] = DEL(first, x);
+      if (thorough || k < n2 || x == 0)
+        emit_mixed(h, n + 1, 1, 1, thorough ? 3 : 2);
+    }
+    /* ... then a UDP observer registers on a TCP-created and on a UDP-created resource (either order) */
+    for (int fi = 0; fi < 3; fi++) {
+      int f = freqs[fi];
+      if (!thorough && f != 10)
+        continue;
+      for (int ord = 0; ord < 2; ord++) {
+        if (!thorough && ord && k >= n2)
+          continue;
+        for (int m = -1; m < 2; m++) { /* no restart in between / stop+restart / kill+restart before the registrations */
+          if (!thorough && m == 0 && k >= n2)
+            continue;
+          int j = n;
+          memcpy(h, b, sizeof b[0] * (size_t)n);
+          if (m >= 0)
+            h[j++] = RST(m);
+          h[j++] = REG(P_1, ord ? ru : rt);
+          h[j++] = REG(P_1, ord ? rt : ru);
+          emit_mixed(h, j, f, 1, thorough && m < 0 ? 3 : 2);
+          if (thorough && m >= 0) { /* and the restored resources are changed once more in a third life */
+            h[j++] = RST(0);
+            h[j++] = CHG(rt, 1);
+            emit_mixed(h, j, f, 1, 2);
+          }
+        }
+      }
+    }
+  }
+  /* --- the TCP peer observes next to a UDP observer: its requests rewrite the file that holds the UDP observer's record --- */
+  for (int fi = 0; fi < 3; fi++) {
+    int f = freqs[fi], L = thorough ? 3 : 2, n;
+    /* (quick: save_freq 10, and the histories with changes for save_freq 1 as well) */
+#define H(...)                                                                                                         \
+  do {                                                                                                                 \
+    struct op l_[] = {__VA_ARGS__};                                                                                    \
+    int chg_ = 0;                                                                                                      \
+    n = (int)(sizeof l_ / sizeof l_[0]);                                                                               \
+    for (int i_ = 0; i_ < n; i_++)                                                                                     \
+      chg_ |= l_[i_].t == OP_CHG;                                                                                      \
+    if (thorough || f == 10 || (f == 1 && chg_))                                                                       \
+      emit_mixed(l_, n, f, 1, L);                                                                                      \
+  } while (0)
+    H(REG(P_T, R_S1));
+    H(REG(P_T, R_S1), CHG(R_S1, 1));
+    H(REG(P_T, R_S1), CAN(P_T, R_S1));
+    H(REG(P_1, R_S1), REG(P_T, R_S1));
+    H(REG(P_T, R_S1), REG(P_1, R_S1));
+    H(REG(P_1, R_S1), REG(P_T, R_S1), CAN(P_T, R_S1));
+    H(REG(P_T, R_S1), REG(P_1, R_S1), CAN(P_T, R_S1));
+    H(REG(P_1, R_S1), REG(P_T, R_S1), CAN(P_1, R_S1));
+    H(REG(P_1, R_S1), REG(P_T, R_S1), CHG(R_S1, 1));
+    H(REG(P_1, R_S1), REG(P_T, R_S1), CHG(R_S1, f + 1));
+    H(REG(P_1, R_S1), REG(P_2, R_S1), REG(P_T, R_S1), CAN(P_T, R_S1));
+    L = 2;
+    for (int k = 0; k < 2; k++) { /* the TCP connection ends with the server process, the UDP observation goes on */
+      H(REG(P_1, R_S1), REG(P_T, R_S1), RST(k), CHG(R_S1, 1));
+      H(REG(P_1, R_S1), REG(P_T, R_S1), RST(k), REG(P_T, R_S1));
+      H(REG(P_1, R_S1), REG(P_T, R_S1), RST(k), REG(P_T, R_S1), CAN(P_T, R_S1));
+    }
+    H(PUT(R_D1, 1), REG(P_1, R_D1), REG(P_T, R_D1), CAN(P_T, R_D1));
+    H(PUT(R_D1, 0), REG(P_1, R_D1), REG(P_T, R_D1), CAN(P_T, R_D1));
+    H(PUT(R_D1, 1), REG(P_T, R_D1), REG(P_1, R_D1), DEL(R_D1, 1));
+    H(PUT(R_D1, 1), REG(P_T, R_D1), REG(P_1, R_D1), DEL(R_D1, 0));
+    H(PUT(R_D1, 0), PUT(R_D2, 1), REG(P_1, R_D1), REG(P_T, R_D2), DEL(R_D2, 1));
+    H(PUT(R_D1, 1), PUT(R_D2, 0), REG(P_1, R_D1), REG(P_T, R_D1), REG(P_1, R_D2), CAN(P_T, R_D1));
+#undef H
+  }
+}
+
 static int T_full_depth, T_free_depth, T_lives3_depth, T_double_depth, T_deldeep_depth = 6;
 static int T_rst_full_depth, T_rst_free_depth, T_rst_lives3_depth, T_rst_kill_depth, T_rst2_depth, T_rst2_kill;
 static int
@@ -2317,6 +2530,18 @@ main(int argc, char **argv) {
   }
   for (int fi = 0; fi < 3; fi++)
     generate(freqs[fi], maxd, policy);
+  if (!getenv("C17_NO_MIXED"))
+    mixed_family(Tq);
+  if (getenv("C17_ONLY_MIXED")) { /* experiments: the mixed-transport family alone */
+    int k = 0;
+    for (int i = 0; i < nscn; i++)
+      if (scns[i].mixed)
+        scns[k++] = scns[i];
+    nscn = k;
+  }
+  G = mmap(NULL, sizeof *G, PROT_READ | PROT_WRITE, MAP_SHARED | MAP_ANONYMOUS, -1, 0);
+  if (G == MAP_FAILED)
+    G = NULL;
   /* stable sort by depth so that the first counterexample found for a signature is a short history */
   {
     struct scn *tmp = malloc(sizeof *tmp * (size_t)nscn);
@@ -2329,7 +2554,7 @@ main(int argc, char **argv) {
     free(tmp);
   }
   {
-    static char rule[3000];
+    static char rule[6000];
     snprintf(rule, sizeof rule,
              "histories = all well-formed operation sequences over {put(d1..d3), del, reg(p1|p2, s1|d1|d2), cancel, chg(r) x {1,f,f+1}} up to the "
              "tier's depth (names and observers introduced in order = modulo renaming; chg only where somebody observes), save_freq f in {1,2,10}; "
@@ -2349,14 +2574,30 @@ main(int argc, char **argv) {
              "not counted; plus kill in the judged restart up to %d), kill-free up to %d; kill+restart markers up to %d operations; two markers "
              "up to %d operations (0 = none in this tier)%s; LeakSanitizer runs at the graceful end of the last life (a life ending at a "
              "stop+restart marker is the last life of the shorter enumerated history); not enumerated: a kill INSIDE an operation or inside the loader followed by further "
-             "operations (only by the judged restart); non-trivial = a kill happened or the history continued after a restart; distinct = distinct logs",
+             "operations (only by the judged restart); non-trivial = a kill happened or the history continued after a restart; distinct = distinct logs; "
+             "TRANSPORTS: the server listens on UDP and TCP (same address); the histories above are all-UDP (the generator's renaming reduction "
+             "d1<->d2, p1<->p2 is only sound without per-operation attributes, so nothing with a transport flag goes through it); the explicit family "
+             "'mixed-transport' (%d histories in this tier, every name order written out) sends put / del / reg / cancel over UDP or over a raw RFC 8323 TCP "
+             "connection (peer t: connect, CSM exchange, one connection per server process): (a) 2 dynamic resources in both name orders x transports "
+             "{TCP-UDP, UDP-TCP, TCP-TCP}, all 6 orders of {d1 over TCP, d2 over UDP, d3 over UDP}%s, each followed by stop-or-kill and restart with "
+             "the kill points of the last creation and the kill points of the restart itself (thorough: 2-resource bases also a kill in both), by a "
+             "deletion of the first created resource over either transport, and by a UDP observer registering on a TCP-created and on a UDP-created "
+             "resource (both orders; directly, after stop+restart, after kill+restart%s; save_freq %s; quick: 3-resource bases in one order and without the stop+restart variant); (b) peer t observes next to UDP "
+             "observers (reg / cancel / resource deletion over TCP rewrite the observe file that holds the UDP observers' records; t's connection ends "
+             "at a stop+restart or kill+restart marker); after the judged restart of every mixed-transport history a new TCP connection GETs every "
+             "resource; the independent reader of the files reads each stored packet with the framing of the record's transport label (RFC 7252 "
+             "datagram / RFC 8323 stream) and requires, in the dynamic-resource file, a request for the Uri-Path the record names",
              T_full_depth, T_lives3_depth, T_double_depth, T_free_depth, T_rst_full_depth, T_rst_lives3_depth, T_rst_free_depth,
              T_rst_kill_depth < gen_rst_depth ? T_rst_kill_depth : gen_rst_depth, gen_rst_max >= 2 ? T_rst2_depth : 0,
-             T_rst2_kill ? "" : ", both stop+restart");
+             T_rst2_kill ? "" : ", both stop+restart", n_mixed, Tq ? ", and d1,d2,d3 in order with every assignment of transports that uses TCP" : "",
+             Tq ? "; then stop+restart and a change in a third life" : "", Tq ? "1, 2, 10" : "10 (and 1 for the histories of (b) with changes)");
     vx_ev_rule(rule);
   }
   vx_ev_assumption("a kill loses user-space stdio buffers and keeps every completed system call (process death, not power loss: no fsync modelling)");
-  vx_ev_assumption("observers are UDP peers that acknowledge Confirmable notifications; no OSCORE, no Block2 in the registration request");
+  vx_ev_assumption("observers whose observation must survive are UDP peers that acknowledge Confirmable notifications; no OSCORE, no Block2 in the registration request");
+  vx_ev_assumption("the TCP peer's observations are NOT expected to be re-established: a TCP connection does not survive the server process and libcoap does not "
+                   "persist observations of stream sessions; the model ends them at every restart, and a subscriber entry for the TCP peer after a restart is a failure; "
+                   "TCP is plain (no TLS, no WebSockets), one connection per server process, default CSM (no options)");
   vx_ev_assumption("crash-free executions end with coap_persist_stop() + coap_free_context() as coap_persist(3) prescribes");
   vx_ev_assumption("every incarnation of the server is a fresh process with the same static resource, endpoint address and save_freq; subscription "
                    "addresses (the keys of the observe file) differ between incarnations, as with real processes");
@@ -2396,6 +2637,34 @@ main(int argc, char **argv) {
       snprintf(k, sizeof k, "histories_depth_%d", d);
       vx_ev_int(k, byd[d]);
     }
+  {
+    int mx_kill = 0, mx_put_only = 0, mx_tcp_obs = 0, mx_rst = 0;
+    for (int i = 0; i < nscn; i++) {
+      if (!scns[i].mixed)
+        continue;
+      int tobs = 0, rst = 0, putonly = 1;
+      for (int j = 0; j < scns[i].nops; j++) {
+        tobs |= scns[i].ops[j].p == P_T;
+        rst |= scns[i].ops[j].t == OP_RST;
+        putonly &= scns[i].ops[j].t == OP_PUT;
+      }
+      mx_kill += scns[i].bound > 0;
+      mx_put_only += putonly;
+      mx_tcp_obs += tobs;
+      mx_rst += rst;
+    }
+    vx_ev_int("histories_mixed_transport", n_mixed);
+    vx_ev_int("histories_mixed_transport_creations_only", mx_put_only);
+    vx_ev_int("histories_mixed_transport_with_tcp_observer", mx_tcp_obs);
+    vx_ev_int("histories_mixed_transport_with_mid_history_restart", mx_rst);
+    vx_ev_int("histories_mixed_transport_with_kill_points", mx_kill);
+    if (G) {
+      vx_ev_int("executions_mixed_transport", G->mixed_execs);
+      vx_ev_int("executions_mixed_transport_with_kill_in_history", G->mixed_kill_execs);
+      vx_ev_int("executions_mixed_transport_with_kill_in_restart", G->mixed_restart_kill_execs);
+      vx_ev_int("tcp_get_after_restart_answered_2_05", G->tcp_probes_ok);
+    }
+  }
   vx_ev_int("histories_with_mid_history_restart", n_rst);
   vx_ev_int("histories_with_two_mid_history_restarts", n_rst2);
   vx_ev_int("histories_with_kill_before_mid_history_restart", n_rstk);
